@@ -105,7 +105,7 @@ fn explore_here(job: &Job) -> JobResult {
     let r = catch_unwind(AssertUnwindSafe(|| {
         runner.run(move || {
             run_body(&body, &x2);
-            HEARTBEAT[0].fetch_add(1, std::sync::atomic::Ordering::Relaxed);
+            TICK.fetch_add(1, std::sync::atomic::Ordering::Relaxed);
             let (c, infl) = class_of(&x2);
             let mut g = cl2.lock().unwrap();
             let fresh = g.0.len() < 5000 && g.0.insert(c.clone());
